@@ -433,7 +433,7 @@ def abandon_program(rng, ncases, lanes=ALL_LANES, big=False):
 BUFSIZES = [1, 7, 1024, 8192, 65536]
 
 
-def retrieval_steps(rng, prog, lanes, key, algo, d, xcount, which=None, dest_exists_p=0.25):
+def retrieval_steps(rng, prog, lanes, key, algo, d, xcount, which=None, dest_exists_p=0.25, big=False):
     """every checked (and some unchecked) retrieval entry point for one entry"""
     st = []
     sri = [{"a": algo, "d": d}]
@@ -454,7 +454,9 @@ def retrieval_steps(rng, prog, lanes, key, algo, d, xcount, which=None, dest_exi
             else:
                 s["sri"] = sri
             st.append(s)
-            bs = rng.choice(BUFSIZES)
+            # (a one-byte buffer on a megabyte file means a million calls through the runtime:
+            # slow enough to trip the watchdog under load, which would be a false alarm)
+            bs = rng.choice(BUFSIZES[2:] if big else BUFSIZES)
             if rng.random() < 0.7:
                 st.append({"op": "r_read", "lane": lane, "h": r, "n": bs, "all": True})
             else:
@@ -531,7 +533,7 @@ def retrieve_program(rng, rounds, lanes=ALL_LANES, big=False, algos=ALGOS, exhau
         which = None
         if big or exhaustive is not None:
             which = rng.sample(["read_k", "read_h", "reader_k", "reader_h", "copy", "hard_link", "reflink"], 3)
-        prog["steps"] += retrieval_steps(rng, prog, lanes, k, a, d, xc, which)
+        prog["steps"] += retrieval_steps(rng, prog, lanes, k, a, d, xc, which, big=big)
         # heal: re-writing the same data replaces whatever is at the address
         prog["steps"].append({"op": "write", "lane": rng.choice(lanes), "key": k, "data": d, "algo": a})
         if dmg is not None and dmg.get("mode") == "swap":
@@ -639,11 +641,15 @@ def link_program(rng, ncases, lanes=ALL_LANES):
                 s["key"] = key
             if how == "linker_opts":
                 o = rand_opts(rng)
-                v = rng.choice(["plain", "size_ok", "size_bad", "sri_ok", "sri_bad"])
+                v = rng.choice(["plain", "size_ok", "size_bad", "size_small", "sri_ok", "sri_bad"])
                 if v == "size_ok":
                     o["size"] = n
                 elif v == "size_bad":
-                    o["size"] = n + 1
+                    o["size"] = n + rng.choice([1, 16 * 1024])
+                    expect_ok = False
+                elif v == "size_small" and n > 0:
+                    # declared smaller than the target: 0, off by one, one read buffer of a larger file
+                    o["size"] = rng.choice([0, n - 1] + ([16 * 1024] if n > 16 * 1024 else []))
                     expect_ok = False
                 elif v == "sri_ok":
                     o["sri"] = [{"a": "sha256", "d": d}]
